@@ -133,8 +133,34 @@ def pmap(fn, items, chunksize=None, jobs=None, init=None, initargs=()):
         return [fn(x) for x in items]
     if chunksize is None:
         chunksize = max(1, min(64, len(items) // (jobs * 8) or 1))
-    with ProcessPoolExecutor(max_workers=jobs, initializer=init, initargs=initargs) as ex:
-        return list(ex.map(fn, items, chunksize=chunksize))
+    # A worker that dies abruptly (OOM kill, a stray signal) breaks the pool; CPython 3.11 can then hang forever in
+    # shutdown(wait=True) (executor manager thread dies on InvalidStateError).  So: no `with`, kill the workers ourselves,
+    # and retry the whole (pure, deterministic) map once with fewer workers before giving up loudly.
+    from concurrent.futures.process import BrokenProcessPool
+    for attempt in (0, 1):
+        ex = ProcessPoolExecutor(max_workers=jobs if attempt == 0 else max(1, jobs // 2), initializer=init, initargs=initargs)
+        try:
+            res = list(ex.map(fn, items, chunksize=chunksize))
+            ex.shutdown(wait=True)
+            return res
+        except BrokenProcessPool:
+            procs = list((getattr(ex, '_processes', None) or {}).values())
+            for pr in procs:
+                try: pr.kill()
+                except Exception: pass
+            try: ex.shutdown(wait=False, cancel_futures=True)
+            except Exception: pass
+            if attempt == 1:
+                raise
+            sys.stderr.write('[pmap] process pool broke (a worker died); retrying once with %d workers\n' % max(1, jobs // 2))
+        except BaseException:
+            procs = list((getattr(ex, '_processes', None) or {}).values())
+            for pr in procs:
+                try: pr.kill()
+                except Exception: pass
+            try: ex.shutdown(wait=False, cancel_futures=True)
+            except Exception: pass
+            raise
 
 # ---------------------------------------------------------------- findings / violations / evidence
 def load_known(prop):
